@@ -92,8 +92,10 @@ impl App {
             &krate_collection,
             &diagnostics,
         );
-        let router = Router::lift(router, component_db.user_component_id2component_id());
+        // Components that failed validation aren't in the component database: bail out before
+        // the router looks up the fallbacks it refers to.
         exit_on_errors!(diagnostics);
+        let router = Router::lift(router, component_db.user_component_id2component_id());
         let mut constructible_db = ConstructibleDb::build(
             &mut component_db,
             &mut computation_db,
